@@ -609,6 +609,10 @@ pub fn rverdict(
                     if BOGUS_CHARSETS.contains(&cs.as_str()) {
                         return (Verdict::Refuse(Rule::BodyCharset), det);
                     }
+                    if ["utf-16le", "utf-16be", "utf-16"].contains(&cs.to_ascii_lowercase().as_str()) && body.len() % 2 == 1 {
+                        // an odd number of bytes is not decodable as UTF-16, whatever the bytes are
+                        return (Verdict::Refuse(Rule::BodyEncoding), det);
+                    }
                     if !UTF8_LABELS.contains(&cs.to_ascii_lowercase().as_str()) {
                         return (Verdict::Unspecified("charset other than UTF-8"), det);
                     }
